@@ -6,7 +6,7 @@ From DSD Require Import Base.Str Base.Errors Model.ComplexUtils Model.RegStr Mod
   Proofs.RegHeap Proofs.RegInv Proofs.RegCalls Proofs.RegExt Proofs.ReaderBasic Proofs.ReaderStmt Proofs.ReaderHeap
   Proofs.ReaderInv Proofs.ReaderHoare Proofs.ReaderNoFault Proofs.ReaderThms Proofs.ReaderBuilds Proofs.ReaderKernel
   Proofs.ReaderMore Proofs.ReaderSys Proofs.ReaderSysA Proofs.ReaderSysB Proofs.ReaderSysC Proofs.ReaderSysD
-  Proofs.ReaderSysE Proofs.ReaderSysF Proofs.ReaderSysG Proofs.ReaderSysH Proofs.ReaderSysI Proofs.ReaderSysJ.
+  Proofs.ReaderSysE Proofs.ReaderSysF Proofs.ReaderSysS Proofs.ReaderSysX Proofs.ReaderSysY Proofs.ReaderSysG Proofs.ReaderSysH Proofs.ReaderSysI Proofs.ReaderSysJ.
 From DSD Require Model.Iupac.
 Import ListNotations.
 
@@ -54,28 +54,37 @@ Proof.
     repeat split.
     + apply negb_true_iff. assumption.
     + assumption.
+    + apply negb_true_iff. assumption.
     + apply Z.leb_le. assumption.
     + apply mem_str_false. apply negb_true_iff. assumption.
   - repeat (apply andb_true_iff in H; destruct H as [H ?]).
-    split; [apply negb_true_iff; assumption|]. split; [assumption|].
+    split; [apply negb_true_iff; assumption|]. split; [assumption|]. split; [apply negb_true_iff; assumption|].
     split; [apply mem_str_false; apply negb_true_iff; assumption|].
     split; [destruct chk; [assumption | exact I]|].
     destruct (Iupac.reverse_wc_complement false sq) as [sq'|]; [eauto | discriminate].
   - repeat (apply andb_true_iff in H; destruct H as [H ?]).
-    split; [assumption|]. split; [apply mem_str_false; apply negb_true_iff; assumption|]. split.
+    split; [assumption|]. split; [apply negb_true_iff; assumption|].
+    split; [apply mem_str_false; apply negb_true_iff; assumption|]. split.
     + match goal with Hx : negb (existsb _ _) = true |- _ => apply negb_true_iff in Hx; rename Hx into Hex end.
       intros Hin. assert (E : existsb (list_eqb str_eqb ds) (map snd (decl_strands prev)) = true); [|congruence].
       apply existsb_exists. exists ds. split; [exact Hin | apply (list_eqb_iff _ str_eqb_iff); reflexivity].
     + eapply forallb_Forall; [|eassumption]. intros d. apply mem_str_iff.
-  - discriminate.
+  - repeat (apply andb_true_iff in H; destruct H as [H ?]).
+    split; [assumption|]. split; [apply mem_str_false; apply negb_true_iff; assumption|]. split.
+    + eapply forallb_Forall; [|eassumption]. intros x Hx. apply andb_true_iff in Hx. apply mem_str_iff. tauto.
+    + destruct (ssc_names prev ss) as [names|]; [|discriminate].
+      match goal with Hx : _ && _ = true |- _ => apply andb_true_iff in Hx; destruct Hx as [Hl Hx] end.
+      destruct (rot_dict names (no_space sst)) as [cdict|] eqn:Er; [|discriminate].
+      destruct (canon_of cdict) as [[cn e]|] eqn:Ec; [|discriminate].
+      exists names, cdict, cn, e. split; [reflexivity|]. split; [apply Nat.eqb_eq; exact Hl|].
+      split; [exact Er|]. split; [exact Ec|]. apply rot_disjointb_sound. assumption.
   - repeat (apply andb_true_iff in H; destruct H as [H ?]).
     split; [assumption|]. split; [apply mem_str_false; apply negb_true_iff; assumption|].
-    split; [apply Nat.eqb_eq; assumption|]. split.
-    + eapply forallb_Forall; [|eassumption]. intros x Hx. apply orb_true_iff in Hx.
-      destruct Hx as [Hx|Hx]; [left; exact Hx | right; apply mem_str_iff; exact Hx].
-    + destruct (rot_dict names sst) as [cdict|]; [|discriminate].
-      destruct (canon_of cdict) as [[cn e]|] eqn:Ec; [|discriminate].
-      exists cdict, cn, e. split; [reflexivity|]. split; [exact Ec|]. apply rot_disjointb_sound. assumption.
+    destruct (expand_ker prev names sst) as [[names' sst']|]; [|discriminate].
+    destruct (rot_dict names' sst') as [cdict|] eqn:Er; [|discriminate].
+    destruct (canon_of cdict) as [[cn e]|] eqn:Ec; [|discriminate].
+    exists names', sst', cdict, cn, e. split; [reflexivity|]. split; [exact Er|]. split; [exact Ec|].
+    apply rot_disjointb_sound. assumption.
   - repeat (apply andb_true_iff in H; destruct H as [H ?]).
     split; [assumption|]. split; [apply mem_str_iff; assumption|].
     split; [apply mem_str_false; apply negb_true_iff; assumption|]. split.
